@@ -126,7 +126,7 @@ class C14Property:
         from tools.search import C14 as oracle
 
         pools = corr.Pools(entries, friendly=True)
-        stats = {"instances": 0, "commute_decided": 0, "commute_undecided": 0, "equality_pairs": 0, "numpy_code_comparisons": 0,
+        stats = {"instances": 0, "commute_decided": 0, "commute_undecided": 0, "equality_pairs": 0, "numpy_code_comparisons": 0, "generated_sources_compared": 0,
                  "timeouts": []}
         fails, notes = [], []
         for entry in entries:
@@ -155,11 +155,15 @@ class C14Property:
             fails += oracle.check_template_globals(entry, pools, rng, ctx)
             if entry.numpy_printable:
                 try:
-                    f, n = corr.with_cap(4 * CAP_S, oracle.numpy_code_agrees, entry, pools, rng)
+                    f, n, structural = corr.with_cap(4 * CAP_S, oracle.numpy_code_agrees, entry, pools, rng)
                 except corr._Timeout:  # noqa: SLF001
                     stats["timeouts"].append("numpy code of " + entry.key)
-                    f, n = [], 0
+                    f, n, structural = [], 0, []
                 fails += f
+                stats["generated_sources_compared"] += 2
+                for s_ in structural:
+                    # T1-style tie of the hand-written printers: folded and unfolded forms must generate the same program
+                    chk.broken_correspondence("generated numpy source of the folded form vs of the unfolded form", s_)
                 stats["numpy_code_comparisons"] += n
                 chk.count(None, n)
         for name, obj in pools.helper_instances(rng).items():
@@ -231,7 +235,11 @@ MANIFEST = {
         "of all-SymPy-field classes; decide-witness for the recursive (astuple) variant. Partial: classes whose evaluate() inspects its "
         "arguments (today BlattWeisskopfSquared, PhaseSpaceFactorSWave) have no template in the model, their commutation law is checked on "
         "the real code only; deep doit() (iterated unfolding incl. SymPy's own doit on Sum/Piecewise) and the clause 'numpy code of folded "
-        "= of unfolded' are not theorems: they are checked by the oracle numerically on the real code for every class (cse on and off)."
+        "= of unfolded' are not theorems. The code-generation clause is checked on the real code only, for every table class carrying a "
+        "_numpycode (hand-written printers bypass the template mechanism of the model) and ComplexSqrt, cse off and on: (a) structurally — "
+        "the lambdified SOURCE of the folded instance must be the same Python program (equal ast) as the source generated from doit(); "
+        "(b) numerically on real-valued and complex-valued inputs (four-momentum arrays and scalars; also with the instance inside "
+        "arithmetic), tolerance 1e-9 relative to the unfolded value, skipping only points where the unfolded code is not finite or not defined."
     ),
     "level_note": (
         "Trusted: Lean kernel + Mathlib (axioms propext, Classical.choice, Quot.sound); the class-table extractor and the SymPy<->S-expression "
